@@ -25,6 +25,13 @@
 //verif:replace@C01h math/rand.New = verifRandNew
 //verif:replace@C01h math/rand.NewSource = verifRandSource
 //verif:replace@C01h (*math/rand.Rand).Intn = verifIntn
+//verif:replace@C18f golang.org/x/crypto/ssh.Dial = verifDial
+//verif:replace@C18f github.com/mimecast/dtail/internal/ssh.KeyFile = verifKeyFile
+//verif:replace@C18f github.com/mimecast/dtail/internal/ssh.Agent = verifAgent
+//verif:replace@C18f os.Stat = verifStatMemfs
+//verif:replace@C18f math/rand.New = verifRandNew
+//verif:replace@C18f math/rand.NewSource = verifRandSource
+//verif:replace@C18f (*math/rand.Rand).Intn = verifIntn
 //verif:replace@C18d golang.org/x/crypto/ssh.Dial = verifDial
 //verif:replace@C18d github.com/mimecast/dtail/internal/ssh.KeyFile = verifKeyFile
 //verif:replace@C18d github.com/mimecast/dtail/internal/ssh.Agent = verifAgent
@@ -41,6 +48,10 @@ package clients
 
 import (
 	"errors"
+	"io/fs"
+	"time"
+
+	"github.com/mimecast/dtail/internal/verifh/memfs"
 	"math/rand"
 	"net"
 	"os"
@@ -85,6 +96,22 @@ func verifKeyFile(keyFile string) (gossh.AuthMethod, error) {
 }
 func verifAgent() (gossh.AuthMethod, error)          { return nil, errors.New("no agent") }
 func verifNoFile(name string) (os.FileInfo, error)    { return nil, errors.New("no such file") }
+type verifFileInfo struct{ name string }
+
+func (i verifFileInfo) Name() string       { return i.name }
+func (i verifFileInfo) Size() int64        { return 1 }
+func (i verifFileInfo) Mode() fs.FileMode  { return 0o644 }
+func (i verifFileInfo) ModTime() time.Time { return time.Time{} }
+func (i verifFileInfo) IsDir() bool        { return false }
+func (i verifFileInfo) Sys() interface{}   { return nil }
+
+// verifStatMemfs: the files of the in-memory file system exist (regular files), nothing else does
+func verifStatMemfs(name string) (os.FileInfo, error) {
+	if _, ok := memfs.FS[name]; ok {
+		return verifFileInfo{name}, nil
+	}
+	return nil, &fs.PathError{Op: "stat", Path: name, Err: fs.ErrNotExist}
+}
 func verifRandNew(src rand.Source) *rand.Rand         { return new(rand.Rand) }
 func verifRandSource(seed int64) rand.Source          { return nil }
 func verifIntn(r *rand.Rand, n int) int               { return 0 }
